@@ -455,6 +455,848 @@ fn plain_view_b_canary(v: u32) -> Vec<(&'static str, &'static str)> {
     plain_view_r1(v).into_iter().map(|m| if m.0 == "add" { ("add", "(u32,Canary1)->u32") } else { m }).collect()
 }
 
+pub mod plain_b_ret_unit {
+    // BREAKING sibling of r1: `kind` no longer returns anything
+    use savefile_derive::{savefile_abi_exportable, Savefile};
+    #[derive(Savefile)]
+    pub struct Point {
+        pub x: u32,
+        #[savefile_versions = "1.."]
+        pub y: u32,
+    }
+    #[derive(Savefile)]
+    pub enum Kind {
+        A,
+        B,
+    }
+    #[savefile_abi_exportable(version = 1)]
+    pub trait Ledger {
+        fn add(&self, x: u32, y: u32) -> u32;
+        fn name(&self) -> String;
+        fn put(&self, p: Point) -> u32;
+        fn kind(&self, k: Kind);
+        fn sub(&self, x: u32, y: u32) -> u32;
+    }
+}
+fn plain_view_b_ret_unit(v: u32) -> Vec<(&'static str, &'static str)> {
+    plain_view_r1(v).into_iter().map(|m| if m.0 == "kind" { ("kind", "(Kind{A,B})->()") } else { m }).collect()
+}
+// ------------------------------------------------------------------------------------------------
+// chain "big": trait GLedger - an enum without a repr attribute at the edge of a one-byte discriminant
+// ------------------------------------------------------------------------------------------------
+pub mod big_r0 {
+    use savefile_derive::{savefile_abi_exportable, Savefile};
+    #[derive(Savefile)]
+    pub enum Big {
+        V0,
+        V1,
+        V2,
+        V3,
+        V4,
+        V5,
+        V6,
+        V7,
+        V8,
+        V9,
+        V10,
+        V11,
+        V12,
+        V13,
+        V14,
+        V15,
+        V16,
+        V17,
+        V18,
+        V19,
+        V20,
+        V21,
+        V22,
+        V23,
+        V24,
+        V25,
+        V26,
+        V27,
+        V28,
+        V29,
+        V30,
+        V31,
+        V32,
+        V33,
+        V34,
+        V35,
+        V36,
+        V37,
+        V38,
+        V39,
+        V40,
+        V41,
+        V42,
+        V43,
+        V44,
+        V45,
+        V46,
+        V47,
+        V48,
+        V49,
+        V50,
+        V51,
+        V52,
+        V53,
+        V54,
+        V55,
+        V56,
+        V57,
+        V58,
+        V59,
+        V60,
+        V61,
+        V62,
+        V63,
+        V64,
+        V65,
+        V66,
+        V67,
+        V68,
+        V69,
+        V70,
+        V71,
+        V72,
+        V73,
+        V74,
+        V75,
+        V76,
+        V77,
+        V78,
+        V79,
+        V80,
+        V81,
+        V82,
+        V83,
+        V84,
+        V85,
+        V86,
+        V87,
+        V88,
+        V89,
+        V90,
+        V91,
+        V92,
+        V93,
+        V94,
+        V95,
+        V96,
+        V97,
+        V98,
+        V99,
+        V100,
+        V101,
+        V102,
+        V103,
+        V104,
+        V105,
+        V106,
+        V107,
+        V108,
+        V109,
+        V110,
+        V111,
+        V112,
+        V113,
+        V114,
+        V115,
+        V116,
+        V117,
+        V118,
+        V119,
+        V120,
+        V121,
+        V122,
+        V123,
+        V124,
+        V125,
+        V126,
+        V127,
+        V128,
+        V129,
+        V130,
+        V131,
+        V132,
+        V133,
+        V134,
+        V135,
+        V136,
+        V137,
+        V138,
+        V139,
+        V140,
+        V141,
+        V142,
+        V143,
+        V144,
+        V145,
+        V146,
+        V147,
+        V148,
+        V149,
+        V150,
+        V151,
+        V152,
+        V153,
+        V154,
+        V155,
+        V156,
+        V157,
+        V158,
+        V159,
+        V160,
+        V161,
+        V162,
+        V163,
+        V164,
+        V165,
+        V166,
+        V167,
+        V168,
+        V169,
+        V170,
+        V171,
+        V172,
+        V173,
+        V174,
+        V175,
+        V176,
+        V177,
+        V178,
+        V179,
+        V180,
+        V181,
+        V182,
+        V183,
+        V184,
+        V185,
+        V186,
+        V187,
+        V188,
+        V189,
+        V190,
+        V191,
+        V192,
+        V193,
+        V194,
+        V195,
+        V196,
+        V197,
+        V198,
+        V199,
+        V200,
+        V201,
+        V202,
+        V203,
+        V204,
+        V205,
+        V206,
+        V207,
+        V208,
+        V209,
+        V210,
+        V211,
+        V212,
+        V213,
+        V214,
+        V215,
+        V216,
+        V217,
+        V218,
+        V219,
+        V220,
+        V221,
+        V222,
+        V223,
+        V224,
+        V225,
+        V226,
+        V227,
+        V228,
+        V229,
+        V230,
+        V231,
+        V232,
+        V233,
+        V234,
+        V235,
+        V236,
+        V237,
+        V238,
+        V239,
+        V240,
+        V241,
+        V242,
+        V243,
+        V244,
+        V245,
+        V246,
+        V247,
+        V248,
+        V249,
+        V250,
+        V251,
+        V252,
+        V253,
+        V254,
+        V255,
+    }
+    #[savefile_abi_exportable(version = 0)]
+    pub trait GLedger {
+        fn e(&self, x: Big) -> u8;
+    }
+}
+pub mod big_r1 {
+    // compatible: a new method
+    use savefile_derive::{savefile_abi_exportable, Savefile};
+    #[derive(Savefile)]
+    pub enum Big {
+        V0,
+        V1,
+        V2,
+        V3,
+        V4,
+        V5,
+        V6,
+        V7,
+        V8,
+        V9,
+        V10,
+        V11,
+        V12,
+        V13,
+        V14,
+        V15,
+        V16,
+        V17,
+        V18,
+        V19,
+        V20,
+        V21,
+        V22,
+        V23,
+        V24,
+        V25,
+        V26,
+        V27,
+        V28,
+        V29,
+        V30,
+        V31,
+        V32,
+        V33,
+        V34,
+        V35,
+        V36,
+        V37,
+        V38,
+        V39,
+        V40,
+        V41,
+        V42,
+        V43,
+        V44,
+        V45,
+        V46,
+        V47,
+        V48,
+        V49,
+        V50,
+        V51,
+        V52,
+        V53,
+        V54,
+        V55,
+        V56,
+        V57,
+        V58,
+        V59,
+        V60,
+        V61,
+        V62,
+        V63,
+        V64,
+        V65,
+        V66,
+        V67,
+        V68,
+        V69,
+        V70,
+        V71,
+        V72,
+        V73,
+        V74,
+        V75,
+        V76,
+        V77,
+        V78,
+        V79,
+        V80,
+        V81,
+        V82,
+        V83,
+        V84,
+        V85,
+        V86,
+        V87,
+        V88,
+        V89,
+        V90,
+        V91,
+        V92,
+        V93,
+        V94,
+        V95,
+        V96,
+        V97,
+        V98,
+        V99,
+        V100,
+        V101,
+        V102,
+        V103,
+        V104,
+        V105,
+        V106,
+        V107,
+        V108,
+        V109,
+        V110,
+        V111,
+        V112,
+        V113,
+        V114,
+        V115,
+        V116,
+        V117,
+        V118,
+        V119,
+        V120,
+        V121,
+        V122,
+        V123,
+        V124,
+        V125,
+        V126,
+        V127,
+        V128,
+        V129,
+        V130,
+        V131,
+        V132,
+        V133,
+        V134,
+        V135,
+        V136,
+        V137,
+        V138,
+        V139,
+        V140,
+        V141,
+        V142,
+        V143,
+        V144,
+        V145,
+        V146,
+        V147,
+        V148,
+        V149,
+        V150,
+        V151,
+        V152,
+        V153,
+        V154,
+        V155,
+        V156,
+        V157,
+        V158,
+        V159,
+        V160,
+        V161,
+        V162,
+        V163,
+        V164,
+        V165,
+        V166,
+        V167,
+        V168,
+        V169,
+        V170,
+        V171,
+        V172,
+        V173,
+        V174,
+        V175,
+        V176,
+        V177,
+        V178,
+        V179,
+        V180,
+        V181,
+        V182,
+        V183,
+        V184,
+        V185,
+        V186,
+        V187,
+        V188,
+        V189,
+        V190,
+        V191,
+        V192,
+        V193,
+        V194,
+        V195,
+        V196,
+        V197,
+        V198,
+        V199,
+        V200,
+        V201,
+        V202,
+        V203,
+        V204,
+        V205,
+        V206,
+        V207,
+        V208,
+        V209,
+        V210,
+        V211,
+        V212,
+        V213,
+        V214,
+        V215,
+        V216,
+        V217,
+        V218,
+        V219,
+        V220,
+        V221,
+        V222,
+        V223,
+        V224,
+        V225,
+        V226,
+        V227,
+        V228,
+        V229,
+        V230,
+        V231,
+        V232,
+        V233,
+        V234,
+        V235,
+        V236,
+        V237,
+        V238,
+        V239,
+        V240,
+        V241,
+        V242,
+        V243,
+        V244,
+        V245,
+        V246,
+        V247,
+        V248,
+        V249,
+        V250,
+        V251,
+        V252,
+        V253,
+        V254,
+        V255,
+    }
+    #[savefile_abi_exportable(version = 1)]
+    pub trait GLedger {
+        fn e(&self, x: Big) -> u8;
+        fn f(&self, x: u32) -> u32;
+    }
+}
+pub mod big_b_257 {
+    // BREAKING: a 257th variant (existing from version 1 on) makes the discriminant two bytes wide - for version 0 too
+    use savefile_derive::{savefile_abi_exportable, Savefile};
+    #[derive(Savefile)]
+    pub enum Big {
+        V0,
+        V1,
+        V2,
+        V3,
+        V4,
+        V5,
+        V6,
+        V7,
+        V8,
+        V9,
+        V10,
+        V11,
+        V12,
+        V13,
+        V14,
+        V15,
+        V16,
+        V17,
+        V18,
+        V19,
+        V20,
+        V21,
+        V22,
+        V23,
+        V24,
+        V25,
+        V26,
+        V27,
+        V28,
+        V29,
+        V30,
+        V31,
+        V32,
+        V33,
+        V34,
+        V35,
+        V36,
+        V37,
+        V38,
+        V39,
+        V40,
+        V41,
+        V42,
+        V43,
+        V44,
+        V45,
+        V46,
+        V47,
+        V48,
+        V49,
+        V50,
+        V51,
+        V52,
+        V53,
+        V54,
+        V55,
+        V56,
+        V57,
+        V58,
+        V59,
+        V60,
+        V61,
+        V62,
+        V63,
+        V64,
+        V65,
+        V66,
+        V67,
+        V68,
+        V69,
+        V70,
+        V71,
+        V72,
+        V73,
+        V74,
+        V75,
+        V76,
+        V77,
+        V78,
+        V79,
+        V80,
+        V81,
+        V82,
+        V83,
+        V84,
+        V85,
+        V86,
+        V87,
+        V88,
+        V89,
+        V90,
+        V91,
+        V92,
+        V93,
+        V94,
+        V95,
+        V96,
+        V97,
+        V98,
+        V99,
+        V100,
+        V101,
+        V102,
+        V103,
+        V104,
+        V105,
+        V106,
+        V107,
+        V108,
+        V109,
+        V110,
+        V111,
+        V112,
+        V113,
+        V114,
+        V115,
+        V116,
+        V117,
+        V118,
+        V119,
+        V120,
+        V121,
+        V122,
+        V123,
+        V124,
+        V125,
+        V126,
+        V127,
+        V128,
+        V129,
+        V130,
+        V131,
+        V132,
+        V133,
+        V134,
+        V135,
+        V136,
+        V137,
+        V138,
+        V139,
+        V140,
+        V141,
+        V142,
+        V143,
+        V144,
+        V145,
+        V146,
+        V147,
+        V148,
+        V149,
+        V150,
+        V151,
+        V152,
+        V153,
+        V154,
+        V155,
+        V156,
+        V157,
+        V158,
+        V159,
+        V160,
+        V161,
+        V162,
+        V163,
+        V164,
+        V165,
+        V166,
+        V167,
+        V168,
+        V169,
+        V170,
+        V171,
+        V172,
+        V173,
+        V174,
+        V175,
+        V176,
+        V177,
+        V178,
+        V179,
+        V180,
+        V181,
+        V182,
+        V183,
+        V184,
+        V185,
+        V186,
+        V187,
+        V188,
+        V189,
+        V190,
+        V191,
+        V192,
+        V193,
+        V194,
+        V195,
+        V196,
+        V197,
+        V198,
+        V199,
+        V200,
+        V201,
+        V202,
+        V203,
+        V204,
+        V205,
+        V206,
+        V207,
+        V208,
+        V209,
+        V210,
+        V211,
+        V212,
+        V213,
+        V214,
+        V215,
+        V216,
+        V217,
+        V218,
+        V219,
+        V220,
+        V221,
+        V222,
+        V223,
+        V224,
+        V225,
+        V226,
+        V227,
+        V228,
+        V229,
+        V230,
+        V231,
+        V232,
+        V233,
+        V234,
+        V235,
+        V236,
+        V237,
+        V238,
+        V239,
+        V240,
+        V241,
+        V242,
+        V243,
+        V244,
+        V245,
+        V246,
+        V247,
+        V248,
+        V249,
+        V250,
+        V251,
+        V252,
+        V253,
+        V254,
+        V255,
+        #[savefile_versions = "1.."]
+        V256,
+    }
+    #[savefile_abi_exportable(version = 1)]
+    pub trait GLedger {
+        fn e(&self, x: Big) -> u8;
+    }
+}
+fn big_view_r0(_v: u32) -> Vec<(&'static str, &'static str)> {
+    vec![("e", "(Big{256 variants, 1-byte tag})->u8")]
+}
+fn big_view_r1(_v: u32) -> Vec<(&'static str, &'static str)> {
+    vec![("e", "(Big{256 variants, 1-byte tag})->u8"), ("f", "(u32)->u32")]
+}
+fn big_view_b_257(v: u32) -> Vec<(&'static str, &'static str)> {
+    vec![("e", if v == 0 { "(Big{256 variants, 2-byte tag})->u8" } else { "(Big{257 variants, 2-byte tag})->u8" })]
+}
+
 fn plain_view_r0(_v: u32) -> Vec<(&'static str, &'static str)> {
     vec![("add", "(u32,u32)->u32"), ("name", "()->String"), ("put", "(Point{x:u32})->u32"), ("kind", "(Kind{A,B})->u8")]
 }
@@ -1159,6 +2001,10 @@ pub fn revisions() -> Vec<Rev> {
         rev!("plain", "plain_b_variant_inserted", 1, plain_view_b_variant_inserted, dyn plain_b_variant_inserted::Ledger, "BREAKING: versioned enum variant inserted before an existing variant (wire tag of Kind::B moves)"),
         rev!("plain", "plain_r1_variant_appended", 1, plain_view_r1_variant_appended, dyn plain_r1_variant_appended::Ledger, "compatible: versioned enum variant appended"),
         rev!("plain", "plain_b_canary", 1, plain_view_b_canary, dyn plain_b_canary::Ledger, "BREAKING: argument type u32 replaced by savefile::Canary1"),
+        rev!("plain", "plain_b_ret_unit", 1, plain_view_b_ret_unit, dyn plain_b_ret_unit::Ledger, "BREAKING: return type of `kind` changed to ()"),
+        rev!("big", "big_r0", 0, big_view_r0, dyn big_r0::GLedger, "initial revision: argument enum with 256 variants, no repr attribute"),
+        rev!("big", "big_r1", 1, big_view_r1, dyn big_r1::GLedger, "compatible: new method"),
+        rev!("big", "big_b_257", 1, big_view_b_257, dyn big_b_257::GLedger, "BREAKING: a versioned 257th variant widens the discriminant of every version"),
         rev!("recv", "recv_r0", 0, recv_view_r0, dyn recv_r0::RLedger, "initial revision with &self and &mut self methods"),
         rev!("recv", "recv_r1", 1, recv_view_r1, dyn recv_r1::RLedger, "compatible: new &mut self method"),
         rev!("recv", "recv_b_argtype", 0, recv_view_b_argtype, dyn recv_b_argtype::RLedger, "BREAKING: argument type of a &mut self method changed"),
